@@ -41,9 +41,11 @@ def byte_at(it, p, k):
 
 def erased_goals(it, rec, p, ranges, when):
     """one obligation per secret range: no assignment of the symbolic object bytes leaves a non-zero byte in it"""
-    pr = smt.Problem(it.ctx); ok_all = True
+    ok_all = True
+    allcells = {(off, ln): [byte_at(it, p, k) for k in range(off, off + ln)] for (off, ln, what) in ranges}
+    pr = smt.Problem(it.ctx)          # after every goal term exists (byte extraction may introduce cuts)
     for (off, ln, what) in ranges:
-        cells = [byte_at(it, p, k) for k in range(off, off + ln)]
+        cells = allcells[(off, ln)]
         gname = "%s every byte of %s (offset %d, %d bytes) is 0" % (when, what, off, ln)
         if not all(isinstance(b, Poly) for b in cells):
             rec["goals"].append(dict(goal=gname, verdict="sat", solver_s=0.0, cases=1, solver_calls=0, kind="structural: cell holds no integer (never written / undef)")); ok_all = False; continue
